@@ -8,6 +8,7 @@ import (
 	"encoding/binary"
 	"fmt"
 	"github.com/klauspost/cpuid/v2"
+	"reflect"
 	"testing"
 	"unsafe"
 
@@ -17,7 +18,7 @@ import (
 
 // C05 — every block path against the reference SM4 (algebraic S-box).
 
-func rkBytes(rk *[32]uint32) []byte {
+func zvRkBytes(rk *[32]uint32) []byte {
 	return (*[128]byte)(unsafe.Pointer(rk))[:]
 }
 
@@ -92,7 +93,7 @@ func TestVerifC05(t *testing.T) {
 			}
 		}
 		r.Eval("schedule:portable," + keyClass)
-		if asmDetected {
+		if zvAsmDetected {
 			var encA, decA [32]uint32
 			kc := append([]byte{}, key...)
 			expandKeyAsm(&kc[0], &encA[0], &decA[0])
@@ -174,7 +175,7 @@ func TestVerifC05(t *testing.T) {
 		r.EvalN("portable-x2,"+keyClass, 10)
 
 		// vector kernels with distinct blocks in every lane, encryption and decryption schedules
-		if asmDetected {
+		if zvAsmDetected {
 			type kern struct {
 				name  string
 				lanes int
@@ -234,9 +235,9 @@ func TestVerifC05(t *testing.T) {
 	})
 
 	// ---- public API on both paths (sequential: flips the path switch)
-	for _, asm := range paths() {
-		withAsm(asm, func() {
-			pn := pathName(asm)
+	for _, asm := range zvPaths() {
+		zvWithAsm(asm, func() {
+			pn := zvPathName(asm)
 			for ki := 0; ki < hk.N(300, 5000) && ki < len(keys); ki++ {
 				key := keys[ki]
 				kcopy := append([]byte{}, key...)
@@ -580,7 +581,7 @@ func TestVerifC05(t *testing.T) {
 					r.Eval("placement:page-edge:" + pn)
 				}
 				// the kernels themselves, blocks against the page edge (every width)
-				if asm && asmDetected {
+				if asm && zvAsmDetected {
 					key := rng.Bytes(16)
 					var enc, dec [32]uint32
 					expandKey(key, &enc, &dec)
@@ -697,7 +698,7 @@ func TestVerifC05(t *testing.T) {
 				r.Eval("cpu-feature-set-toggled:" + pn)
 			}
 			// object lifetimes: AEADs derived from a Block become garbage and are finalized while the Block lives on
-			lifetimeHistories(r, rng, pn, hk.N(6, 40), false, true, false)
+			zvLifetimeHistories(r, rng, pn, hk.N(6, 40), false, true, false)
 			// key lengths other than 16 must be rejected
 			for l := 0; l <= 40; l++ {
 				if l == 16 {
@@ -708,7 +709,7 @@ func TestVerifC05(t *testing.T) {
 				p, msg, _, _ := hk.Try(func() { blk, err = NewCipher(rng.Bytes(l)) })
 				if p {
 					r.Violation("NewCipher-panics-on-bad-key-length:"+pn, hk.D{"len": l, "panic": msg})
-				} else if err == nil || !isNilBlock(blk) {
+				} else if err == nil || !zvIsNilBlock(blk) {
 					r.Violation("NewCipher-accepts-bad-key-length:"+pn, hk.D{"len": l})
 				}
 				r.Eval(fmt.Sprintf("keylen:%s", pn))
@@ -716,7 +717,7 @@ func TestVerifC05(t *testing.T) {
 			var blk interface{}
 			var err error
 			p, msg, _, _ := hk.Try(func() { blk, err = NewCipher(nil) })
-			if p || err == nil || !isNilBlock(blk) {
+			if p || err == nil || !zvIsNilBlock(blk) {
 				r.Violation("NewCipher-nil-key:"+pn, hk.D{"panic": msg})
 			}
 		})
@@ -724,15 +725,10 @@ func TestVerifC05(t *testing.T) {
 	r.Sample(hk.D{"key": hk.Hex(keys[2]), "paths": "portable x1/x2, expandKey, expandKeyAsm, kernels x1..x16 (all lanes), public Encrypt/Decrypt asm on/off"})
 }
 
-func isNilBlock(b interface{}) bool {
+func zvIsNilBlock(b interface{}) bool {
 	if b == nil {
 		return true
 	}
-	switch v := b.(type) {
-	case *sm4Cipher:
-		return v == nil
-	case *sm4CipherAsm:
-		return v == nil
-	}
-	return false
+	rv := reflect.ValueOf(b)
+	return rv.Kind() == reflect.Ptr && rv.IsNil()
 }
